@@ -1,10 +1,10 @@
 SPECIFICATION Spec
 CONSTANTS
   Spellings = {"a", "A", "b"}
-  Values = {1, 2}
+  Values = {1, 2, 3}
   MaxTotal = 3
   MaxSteps = 60
-  Preds = {"v1", "ka", "none"}
+  Preds = {"v1", "notv1", "ka", "none"}
   DrainCuts = {0, 1, 2, 9}
   DEV_RemovedHintNone = FALSE
 INVARIANTS RefAccepts Abstraction NoEmptyLists Emit
